@@ -407,7 +407,22 @@ def analyzer_kwargs(cfg, win_obj=None):
     return kw
 
 
+LAYOUTS = ["2xN", "2xN", "2xN", "Nx2_view", "list"]
+
+
+def as_layout(data, layout):
+    """The caller's way of handing over two channels.  Both alternatives alias the caller's (2, N) buffer (a transposed
+    view, a list of its rows), so in-place refills of that buffer still reach whatever the library keeps of it."""
+    if layout in (None, "2xN") or not isinstance(data, np.ndarray) or data.ndim != 2 or data.shape[0] != 2 or data.shape[1] <= 2:
+        return data
+    if layout == "Nx2_view":
+        return data.T
+    if layout == "list":
+        return [data[0], data[1]]
+    return data
+
+
 def build_analyzer(data, cfg, win_obj=None):
     from speckit import SpectrumAnalyzer
 
-    return SpectrumAnalyzer(data, cfg["fs"], **analyzer_kwargs(cfg, win_obj))
+    return SpectrumAnalyzer(as_layout(data, cfg.get("layout")), cfg["fs"], **analyzer_kwargs(cfg, win_obj))
